@@ -33,7 +33,12 @@ func (c *tCoin) ValueAge() int64       { return c.confs * c.value }
 
 func mkCoin(m map[string]interface{}) *tCoin {
 	c := &tCoin{id: gInt(m, "id"), value: gInt64(m, "value"), confs: gInt64(m, "confs"), index: uint32(gInt(m, "index"))}
-	c.hash = chainhash.Hash{byte(c.id), byte(c.id >> 8), 0xC0}
+	// txk names the funding transaction (several coins may be outputs of one transaction); default: one each
+	txk := c.id
+	if v, ok := m["txk"]; ok {
+		txk = gInt(Event{"x": v}, "x")
+	}
+	c.hash = chainhash.Hash{byte(txk), byte(txk >> 8), 0xC0}
 	return c
 }
 
@@ -121,7 +126,12 @@ func opCoinSet(h *HState, a Event) Event {
 }
 
 func coinRec(id int, v, cf int64) map[string]interface{} {
-	return map[string]interface{}{"id": id, "value": v, "confs": cf, "index": id % 5}
+	return map[string]interface{}{"id": id, "value": v, "confs": cf, "index": id % 5, "txk": id}
+}
+
+// coinOfTx: a coin that is output `index` of funding transaction txk
+func coinOfTx(id, txk, index int, v, cf int64) map[string]interface{} {
+	return map[string]interface{}{"id": id, "value": v, "confs": cf, "index": index, "txk": txk}
 }
 
 func runC19(c *Ctx) {
@@ -233,6 +243,16 @@ func runC19(c *Ctx) {
 			case "read":
 				calls = append(calls, Event{"op": "CsObserve"})
 			}
+		}
+		c.Run(calls)
+	}
+	// several outputs of ONE funding transaction in a set (same hash, different index), an unrelated coin in between
+	for k := 0; k < c.Pick(10, 100); k++ {
+		calls := []Event{{"op": "CsNew", "coins": []interface{}{coinOfTx(1, 700+k, 0, 10, 1)}},
+			{"op": "CsPush", "coin": coinRec(2, 5, 2)}, {"op": "CsPush", "coin": coinOfTx(3, 700+k, 2, 7, 3)}, {"op": "CsObserve"},
+			{"op": "CsPush", "coin": coinOfTx(4, 700+k, 1, 1, 0)}, {"op": "CsObserve"}}
+		for s := 0; s < k%4; s++ {
+			calls = append(calls, Event{"op": []string{"CsShift", "CsPop"}[(k+s)%2]}, Event{"op": "CsObserve"})
 		}
 		c.Run(calls)
 	}
